@@ -149,8 +149,6 @@ def build_jobs(tier: str) -> list:
     for name, text in sim.example_inputs().items():
         if name.startswith(('Beckers', 'example6', 'example7', 'MC_', 'SUTRA', 'example_SBT', 'Wanju')):
             continue
-        if tier == 'quick' and name.startswith(('Fervo', 'example_SHR')):
-            continue
         jobs.append((f'example:{name}', text))
     return jobs
 
